@@ -9,3 +9,41 @@ Theorem C08_undo_set : forall (H : Type) (HO : ops H), ops_ok HO -> forall C del
   (In h (cached_after_undo HO (cached_after HO C dels rem) adds) <-> In h C /\ ~ In h dels).
 Proof. exact cached_undo_spec. Qed.
 Print Assumptions C08_undo_set.
+
+From Utreexo Require Import Base.Hash Spec.Oracle Model.Verify Proofs.CalcSound Proofs.CachedVerifies.
+From Coq Require Import Permutation.
+Open Scope N_scope.
+
+(** "canonical": what the correspondence check expects of [Proof.Undo] in the previous state ([exp_cached]: the cached
+    leaves ordered by position, their positions, the canonical hashes) IS the canonical proof of
+    those leaves ... *)
+Theorem C08_expected_cached_is_canonical :
+  forall (H : Type) (HO : ops H), ops_ok HO ->
+  forall (s : slots H) set hs ts pf,
+    NoDup (live s) -> NoDup set ->
+    exp_cached HO (mk_ctx HO s) set = Some (hs, ts, pf) ->
+    exp_prove HO (mk_ctx HO s) hs = Some (ts, pf) /\ Permutation hs set.
+Proof. exact cached_is_canonical. Qed.
+Print Assumptions C08_expected_cached_is_canonical.
+
+(** ... "complete": it exists for every set of live leaves and the (repaired) roots-only verifier
+    accepts it, for every forest of up to 2^63 leaves *)
+Theorem C08_expected_cached_exists :
+  forall (H : Type) (HO : ops H), ops_ok HO ->
+  forall (s : slots H) set, (forall h, In h set -> In (Some h) s) ->
+    exp_cached HO (mk_ctx HO s) set <> None.
+Proof. exact cached_exists. Qed.
+Print Assumptions C08_expected_cached_exists.
+
+Theorem C08_expected_cached_verifies :
+  forall (H : Type) (HO : ops H), ops_ok HO ->
+  forall (s : slots H) set hs ts pf,
+    (forall a b, NZ HO (op_hash2 HO a b)) ->
+    (forall h, In (Some h) s -> NZ HO h) ->
+    N.of_nat (length s) <= 2 ^ 63 ->
+    NoDup (live s) -> NoDup set ->
+    exp_cached HO (mk_ctx HO s) set = Some (hs, ts, pf) ->
+    exists idx, Verify HO true (the_stump (mk_ctx HO s)) hs ts pf = Ok idx /\
+                exp_root_indexes HO (mk_ctx HO s) hs = Some idx.
+Proof. exact cached_verifies. Qed.
+Print Assumptions C08_expected_cached_verifies.
